@@ -5,7 +5,7 @@ For each /verif/seeded/<Cxx...>/ : a scratch worktree of /repo's HEAD under /tmp
 (patch_on_fixed_tree.diff when present, else patch.diff), `KOPF_REPO=<worktree> ./check <Cxx> quick`,
 worktree removed. Prints one line per seed: caught (VIOLATION with replay) / caught-no-input / MISSED / n/a.
 
-usage: tools/run_seeds.py [name-prefix ...] [--jobs N] [--seed N] [--dir DIR]
+usage: tools/run_seeds.py [name-prefix ...] [--jobs N] [--seed N] [--dir DIR] [--record]
 """
 from __future__ import annotations
 
@@ -55,6 +55,7 @@ def main() -> int:
     args = sys.argv[1:]
     jobs, seed, base = 3, "0", ROOT / "seeded"
     names = []
+    record = False
     while args:
         a = args.pop(0)
         if a == "--jobs":
@@ -63,15 +64,26 @@ def main() -> int:
             seed = args.pop(0)
         elif a == "--dir":
             base = Path(args.pop(0))
+        elif a == "--record":
+            record = True
         else:
             names.append(a)
     dirs = sorted(p for p in base.iterdir() if p.is_dir() and re.match(r"C\d\d", p.name)
                   and (not names or any(p.name.startswith(n) for n in names)))
     bad = 0
+    results = {}
     with cf.ThreadPoolExecutor(jobs) as ex:
         for name, res in ex.map(lambda d: run_one(d, seed), dirs):
             print(f"{name:55s} {res}", flush=True)
             bad += res.startswith(("MISSED", "harness"))
+            results[name] = {"result": res.replace("replay=replays/", "replay=")}
+    if record:
+        import json
+        rp = base / "RESULTS.json"
+        old = json.loads(rp.read_text()) if rp.exists() else {}
+        old.update(results)
+        old["_head"] = subprocess.run(["git", "-C", REPO, "rev-parse", "--short", "HEAD"], capture_output=True, text=True).stdout.strip()
+        rp.write_text(json.dumps(old, indent=1, sort_keys=True) + "\n")
     subprocess.run(["git", "-C", REPO, "worktree", "prune"], capture_output=True)
     return 1 if bad else 0
 
